@@ -176,13 +176,13 @@ fn chunks() -> BoxedStrategy<Vec<u16>> {
     prop::collection::vec(prop_oneof![3 => 1u16..40, 1 => Just(0u16), 1 => Just(1u16), 1 => 100u16..9000], 0..30).boxed()
 }
 
-fn clean_strategy(tier: Tier) -> BoxedStrategy<Case> {
+pub fn clean_strategy(tier: Tier) -> BoxedStrategy<Case> {
     (lines_strategy(tier, false), any::<bool>(), chunks())
         .prop_map(|(lines, final_newline, chunks)| Case { lines, final_newline, chunks, fail_at: None, all_reads: false })
         .boxed()
 }
 
-fn fault_strategy(tier: Tier) -> BoxedStrategy<Case> {
+pub fn fault_strategy(tier: Tier) -> BoxedStrategy<Case> {
     prop_oneof![
         // content faults
         2 => (lines_strategy(tier, true), any::<bool>(), chunks())
@@ -299,6 +299,12 @@ pub fn check(c: &Case, obs: &mut Obs) -> Result<(), String> {
     for l in &c.lines {
         // domain: one line per element, no CR; 'PKGNAME' only as the exact 'PKGNAME=' prefix
         let t = l.trim();
+        // white space other than blank and tab (VT, FF, U+0085, U+00A0, U+2028 ...): the statement
+        // says "whitespace" / "trimmed" without saying which characters those are (see DESIGN 10.5)
+        if l.chars().any(|ch| ch.is_whitespace() && ch != ' ' && ch != '\t') {
+            obs.excluded = true;
+            return Ok(());
+        }
         if l.contains(['\n', '\r']) || (t.starts_with("PKGNAME") && !t.starts_with("PKGNAME=") && t.split('=').next().map(|k| k.trim() == "PKGNAME").unwrap_or(false)) {
             obs.excluded = true;
             return Ok(());
@@ -408,10 +414,11 @@ pub fn property() -> Property {
         streams: vec![
             random_stream("records", "well-formed multi-record inputs x read schedules", clean_strategy, |t| t.pick(50_000, 3_000_000), check),
             random_stream("faults", "content faults and I/O errors at every read", fault_strategy, |t| t.pick(12_000, 600_000), check),
+            crate::fuzz::replay_stream(),
         ],
         selfcheck: crate::models::pkgpath::selfcheck,
         hang_is_violation: false,
         min_nontrivial_share: 0.05,
-        extra: None,
+        extra: Some(crate::fuzz::extra),
     }
 }
